@@ -34,20 +34,31 @@ the property's format list); addresses >= 2^30 (TLC integers); several source fi
 hosts; stderr warnings; empty (zero-length) records; mixed granularity / mixed default formats in one call;
 -m >= 2 with Intel-16/32 and -m with non-Intel formats (manual: -m is for the Intel formats of the PICs).
 
-Findings on the pinned tree (known_findings/C06.json, proposed_fixes/C06-*.diff): MOS running checksum, MOS
-terminator count constant 4, Tektronix byte sums instead of hex-digit sums, Intel-32 bank logic wrong for
-granularity > 1, S-record type chosen before -R/-a, Intel-16 offset wrap for records > 64 KiB - 16, -r ignored
-for -segment != code.
+Findings on the pinned tree (known_findings/C06.json, proposed_fixes/C06-*.diff + .md), each reproduced with the
+real binary and predicted by the pinned operational model: MOS running checksum; MOS terminator count constant 4;
+Tektronix byte sums instead of hex-digit sums; Intel-32 bank logic wrong for granularity > 1; line length not rounded
+to whole address units for granularity 4/8 (wrong addresses, SIGSEGV with -m 1); S-record count byte overflow for
+-l > 250..252; S-record type chosen before -R/-a; Intel-16 offset wrap for a record > 64 KiB - 16; -r ignored for
+-segment != code.  With all proposed diffs applied (scratch copy) the check passes without any known finding and
+the real output equals Emit(c, {}) in every representable case.
 
-Mutations of /repo/p2hex.c tried on a scratch copy (all compile, 201/201 ctest pass), all reported as VIOLATION:
-  S-record checksum `ChkSum ^ 0xff` -> `ChkSum ^ 0xfe`; S5 count off by one; Intel `1 + (ChkSum ^ 0xff)` ->
-  `(ChkSum ^ 0xff)`; Intel-32 bank record dropped (`FirstBank = True` removed); `ErgStart += Relocate` removed;
-  RelAdr subtraction removed; Atmel address `>> z` dropped; default format of 65xx changed to Intel;
-  MOS address `LoWord(ErgStart)` -> `LoWord(ErgStart + 1)` (distinguished from the known MOS findings).
+Binding shown (./check C06 --selftest; selftest/c06_mutants.py):
+ (a) corrupted recorded fields (checksum byte, removed line, address changed with a consistent checksum) of real
+     Moto/Intel/Intel16/Intel32/Atmel/C outputs: all 18 rejected by TLC, the 6 unmodified ones accepted;
+ (b) 17 source mutations of p2hex.c/headids.c on scratch copies (all compile; ctest 201/201 as p2hex is not run by any
+     test): S-record checksum `^ 0xff` -> `^ 0xfe` (2274 violations), S5 count +1 (694), Intel checksum without the +1
+     (4432), Intel-32 `FirstBank = True` dropped (301), `ErgStart += Relocate` removed (2565), -a subtraction removed
+     (3409), Atmel address bytes `>> z` dropped (337), default format of 65xx -> Intel (12), MOS address +1 (681;
+     told apart from the known MOS findings), window end -1 (7475), Tek count +1 (649), `FilterOK(InpHeader)` as in
+     p2bin (57 of 1200 seeded cases; needs -f, which the TLC case space does not contain), Intel EOF entry address
+     dropped (687), C `_len` +1 (1135), S9 entry address dropped (1109), file offset not added (60): all VIOLATION.
+     Intel-16 segment rounded to 256 instead of 16 bytes: output stays valid and decodes right, correctly NOT a
+     violation (1 report only where it meets the known granularity-4 defect).
 """
 import copy
 import json
 import os
+import re
 import shutil
 
 from vlib import aslrun, build, codefile, p2hexio, tlc
@@ -226,25 +237,44 @@ def judge_with_tlc(cases, results, shards):
         buckets[j % len(buckets)].append(d)
     buckets = [b for b in buckets if b]
 
+    shard_errors = {}
+
     def run_shard(b):
-        path = os.path.join(scratch(), "c06-cases-%d.ndjson" % id(b))
-        tlc.write_ndjson(b, path)
-        r = tlc.run("P2Hex_Trace", "P2Hex_Trace.cfg", workers=1, env={"CASES": path}, timeout=2400, mem="6g",
-                    tags=("OUT",), keep_out=True)
-        os.unlink(path)
-        if r.error or r.violation or len({v["id"] for _, v in r.printed}) != len(b):
-            raise CheckError("P2Hex_Trace did not evaluate all cases (%d of %d): %s"
-                             % (len(r.printed), len(b), (r.error or r.violation or r.out[-600:])))
-        return r
+        """one JVM per shard; a case TLC cannot evaluate (evaluation error of the specification on an unforeseen
+        token shape) is set aside as {"tlc_error": ...} and the rest of the shard is evaluated in a further run"""
+        got, runs, todo, errors = {}, [], list(b), 0
+        tlc_errors = shard_errors
+        while todo:
+            path = os.path.join(scratch(), "c06-cases-%d-%d.ndjson" % (id(b), len(runs)))
+            tlc.write_ndjson(todo, path)
+            r = tlc.run("P2Hex_Trace", "P2Hex_Trace.cfg", workers=1, env={"CASES": path}, timeout=2400, mem="6g",
+                        tags=("OUT",), keep_out=True)
+            os.unlink(path)
+            runs.append(r)
+            for _, v in r.printed:
+                got[v["id"]] = v
+            rest = [d for d in todo if d["id"] not in got]
+            if not rest:
+                break
+            if r.rc is None or errors >= 8 or "Error:" not in r.out:
+                raise CheckError("P2Hex_Trace did not evaluate all cases (%d of %d): %s"
+                                 % (len(got), len(b), (r.error or r.violation or r.out[-600:])))
+            errors += 1
+            i = r.out.find("Error:")
+            got[rest[0]["id"]] = tlc_errors[rest[0]["id"]] = {"id": rest[0]["id"], "tlc_error": r.out[i:i + 400]}
+            todo = rest[1:]
+        return runs
 
     verdicts = {}
     stats = {"states": 0, "generated": 0, "wall": 0.0}
-    for r in pmap(run_shard, buckets, workers=len(buckets)):
-        stats["states"] += r.distinct
-        stats["generated"] += r.generated
-        stats["wall"] = max(stats["wall"], r.wall)
-        for tag, v in r.printed:
-            verdicts[v["id"]] = v
+    for runs in pmap(run_shard, buckets, workers=len(buckets)):
+        stats["wall"] = max(stats["wall"], sum(r.wall for r in runs))
+        for r in runs:
+            stats["states"] += r.distinct
+            stats["generated"] += r.generated
+            for tag, v in r.printed:
+                verdicts[v["id"]] = v
+    verdicts.update(shard_errors)
     return verdicts, stats
 
 
@@ -292,6 +322,13 @@ def report_case(rep, bld, c, res, v, state):
             state["drift_model"] += 1
             rep.drift("output valid and decodes right but differs from the operational model's line splitting: %s %s"
                       % (c["origin"], " ".join(res["cmd"])))
+        if not vv["tek_term"] and not state["drift_tek"]:
+            state["drift_tek"] = True
+            rep.drift("Tektronix output has no termination block /AAAA00CC (observation; not required by the check)")
+        if not vv["c_end"] and not state["drift_cend"]:
+            state["drift_cend"] = True
+            rep.drift("C output: <name>_end is start + length in BYTES - 1, not the last ADDRESS, for granularity > 1 "
+                      "(%s)" % " ".join(res["cmd"]))
         if vv["maxline"] > v["manual_linelen"] and not state["drift_l"]:
             state["drift_l"] = True
             rep.drift("-l %d: lines carry %d data bytes; the manual says odd values are rounded down, "
@@ -336,11 +373,27 @@ def main(tier):
     # (M) + (G): model check the repaired model and export its case space -------------------------------
     skip_pinned = bool(os.environ.get("VERIF_C06_SKIP_PINNED_MC"))      # development aid for mutation runs
     with Phase("P2Hex_Gen model check + case export"):
-        g = tlc.must(tlc.run("P2Hex_Gen", "P2Hex_Gen.cfg" if quick else "P2Hex_GenFull.cfg", workers=workers,
-                             timeout=3000, mem="8g", tags=("TR",)), "P2Hex_Gen")
-    if g.violation:
-        raise CheckError("the repaired P2Hex model violates its invariants: %s" % g.violation[:800])
-    rep.model("P2Hex_Gen(repaired model: LinesValid, Verdict, Emit, LineLen, Bank)", g)
+        base_cfg = open(os.path.join(VERIF, "spec", "P2Hex_Gen.cfg" if quick else "P2Hex_GenFull.cfg")).read()
+        fmts = re.search(r"Fmts = \{([^}]*)\}", base_cfg).group(1).replace(" ", "").split(",")
+        # TLC computes initial states with one thread: one TLC run per group of formats, run side by side
+        groups = [fmts] if quick else [[f] for f in fmts]
+
+        def gen(group):
+            cfg = os.path.join(scratch(), "P2Hex_Gen_%s.cfg" % "_".join(x.strip('"') for x in group))
+            with open(cfg, "w") as f:
+                f.write(re.sub(r"Fmts = \{[^}]*\}", "Fmts = {%s}" % ", ".join(group), base_cfg))
+            return tlc.must(tlc.run("P2Hex_Gen", cfg, workers=workers if quick else 2, timeout=3000, mem="6g",
+                                    tags=("TR",)), "P2Hex_Gen %s" % group)
+        gens = pmap(gen, groups, workers=4)
+    g = tlc.TLCResult()
+    for x in gens:
+        if x.violation:
+            raise CheckError("the repaired P2Hex model violates its invariants: %s" % x.violation[:800])
+        g.generated += x.generated
+        g.distinct += x.distinct
+        g.wall = max(g.wall, x.wall)
+        g.printed += x.printed
+    rep.model("P2Hex_Gen(repaired model: LinesValid, Verdict, DecodeEquiv, Emit, LineLen, Bank, WholeUnits)", g)
     with Phase("P2Hex_MC pinned model"):
       if not skip_pinned:
         pm = tlc.must(tlc.run("P2Hex_MC", "P2Hex_MCpinned.cfg", workers=workers, timeout=3000, mem="8g",
@@ -382,13 +435,17 @@ def main(tier):
     rep.part("P2Hex_Trace", cases=len(cases), distinct_states=st["states"], wall_s=st["wall"])
 
     state = {"expected_failures": 0, "indefinite": 0, "judged": 0, "unrepresentable": 0, "attributed": 0,
-             "drift_model": 0, "drift_l": False}
+             "drift_model": 0, "drift_l": False, "drift_tek": False, "drift_cend": False}
     per_fmt = {}
+    tlc_errors = []
     for i, (c, res) in enumerate(zip(cases, results)):
         v = verdicts.get(i)
         if v is None:
             raise CheckError("no TLC verdict for case %d" % i)
         rep.evaluated()
+        if "tlc_error" in v:
+            tlc_errors.append("%s p2hex %s: %s" % (c["origin"], " ".join(res["cmd"]), v["tlc_error"][:300]))
+            continue
         if res["timeout"]:
             rep.violation("p2hex timed out: %s" % " ".join(res["cmd"]), case={"o": c["o"]}, files=case_files(c, res),
                           key={"deviation": "none", "kind": "timeout"})
@@ -400,6 +457,8 @@ def main(tier):
             rep.distinct((fmt, json.dumps(c["o"], sort_keys=True),
                           tuple((x["start"], len(x["data"]), x["gran"]) for x in c["recs"])),
                          nontrivial=v["v"]["nlines"] > 2)
+    for t in tlc_errors[:10]:
+        log("CHECK-ERROR property=%s TLC could not evaluate a case: %s" % (PID, t))
     rep.traces(state["judged"])
     rep.part("judgement", per_format=per_fmt, **{k: v for k, v in state.items()})
     for i in (0, ngen // 2, ngen + 1, len(cases) - 1):
@@ -408,12 +467,13 @@ def main(tier):
                     len(x["data"])) for x in c["recs"]][:4], "hex_head": (res["text"] or "").split("\n")[:4],
                     "tlc_verdict": {k: v.get("v", {}).get(k) for k in ("fmt", "ok", "valid", "structure", "decode",
                                                                            "nsel", "nlines")}, "model": v.get("model")})
-    return rep.finish(
+    rc = rep.finish(
         rule="cases = every case of the TLC case space of P2Hex_Gen (records at/around 0, 64 KiB, 1 MiB, 16 MiB x "
              "formats x option vectors) + seeded random multi-record cases + golden-corpus .p files x formats + "
              "hand-placed long-record cases; each converted by the real p2hex and judged by TLC (P2Hex_Trace); "
              "distinct = (format, option vector, record layout); non-trivial = more than 2 output lines",
         exhaustive=False)
+    return rc if rc or not tlc_errors else 2
 
 
 def replay(path):
@@ -431,3 +491,64 @@ def replay(path):
     log("recorded: %s" % v["what"])
     vv = verdicts[0]
     return 0 if (vv.get("ran") and (not vv.get("definite") or (vv["v"]["ok"] and vv["csyn"]))) else 1
+
+
+def selftest(tier):
+    """(a) corrupt single fields of recorded real outputs: TLC must reject every corruption;
+       (b) thorough: run the stored source mutations (selftest/c06_mutants.py) in scratch copies."""
+    import subprocess
+    bld = build.get("hook")
+    big = [(i * 37 + 11) % 256 for i in range(100)]
+    base = []
+    for fmt, cpu, gran in (("MOTO", 0x01, 1), ("INTEL", 0x51, 1), ("INTEL32", 0x13, 1), ("ATMEL", 0x3b, 2), ("C", 0x51, 1),
+                           ("INTEL16", 0x42, 1)):
+        start = 0x7f00 if fmt == "INTEL" else 0xfff0        # Intel-8 cannot carry addresses above $FFFF
+        base.append(mk_case([{"cpu": cpu, "seg": 1, "gran": gran, "start": start, "data": big}], {"fmt": fmt},
+                            fentry=0x1234, origin="selftest/" + fmt))
+    results = p2hexio.run_many(bld, [(c["p"], c["o"]) for c in base], workers=4)
+    cases, res2, names = [], [], []
+    for c, r in zip(base, results):
+        cases.append(c); res2.append(r); names.append(c["origin"] + " unmodified")
+        toks = r["lines"]
+        muts = []
+        data_idx = [i for i, t in enumerate(toks) if t["k"] in ("S", "I", "A", "CA") and len(t.get("b", [])) > 6
+                    or t["k"] == "A"]
+        i = data_idx[len(data_idx) // 2]
+        t = copy.deepcopy(toks)
+        t[i]["b"][-1] = (t[i]["b"][-1] + 1) % 256
+        muts.append(("last byte of line %d +1" % i, t))
+        t = copy.deepcopy(toks)
+        del t[i]
+        muts.append(("line %d removed" % i, t))
+        t = copy.deepcopy(toks)
+        if "a" in t[i]:
+            t[i]["a"][-1] ^= 2
+        elif t[i]["k"] == "S":
+            t[i]["b"][2] ^= 1
+            t[i]["b"][-1] ^= 1        # keep the checksum right: only the address is wrong
+        elif t[i]["k"] == "I":
+            t[i]["b"][2] ^= 1
+            t[i]["b"][-1] = (t[i]["b"][-1] - (1 if t[i]["b"][2] & 1 else -1)) % 256
+        elif t[i]["k"] == "CA":
+            t[i]["b"][3] ^= 0x40
+        muts.append(("address/data of line %d changed with a consistent checksum" % i, t))
+        for what, tk in muts:
+            rr = dict(r)
+            rr["lines"] = tk
+            cases.append(c); res2.append(rr); names.append(c["origin"] + " " + what)
+    verdicts, _ = judge_with_tlc(cases, res2, 2)
+    bad = 0
+    for i, n in enumerate(names):
+        v = verdicts[i]
+        ok = v["v"]["ok"] and v["csyn"]
+        expect_ok = n.endswith("unmodified")
+        log("selftest %-70s TLC verdict ok=%s %s" % (n, ok, "" if ok == expect_ok else "<-- UNEXPECTED"))
+        bad += ok != expect_ok
+    if tier == "thorough":
+        r = subprocess.run(["python3", os.path.join(VERIF, "selftest", "c06_mutants.py")], stdout=subprocess.PIPE,
+                           stderr=subprocess.STDOUT)
+        out = r.stdout.decode()
+        log(out)
+        bad += sum(1 for ln in out.splitlines() if ln.startswith("m") and "violations=0" in ln)
+    log("selftest: %s" % ("OK" if not bad else "%d unexpected results" % bad))
+    return 0 if not bad else 1
